@@ -21,8 +21,9 @@ EXPLANATION = (
     "Taylor coefficients of (1+x)^(-1/2) and fresh interior index strings of the block's space; off-diagonal blocks and "
     "repeated indices refused. intermediate_state: 1/(n_o! n_v!) sum_{a+b=n} S^(-1/2,(a)) precursor^(b) with the "
     "side-dependent index order. overlap_precursor / overlap_isr: sum N^(a) sum wicks(<I^(i)|J^(k)>). D1/D2 are read "
-    "off the same comparison (order splits complete, factor order inside wicks). R04b: _generate_lower_spaces / "
-    "validate_space evaluated on all space strings with <= 3 p and <= 3 h. R02c: Taylor coefficients of (1+x)^-1/2 "
+    "off the same comparison (order splits complete, factor order inside wicks). R04b: validate_space evaluated on all "
+    "space strings with <= 3 p and <= 3 h for every candidate minimal space (the set of lower spaces of a space is observed "
+    "through the public function; the private helper that generates them is evaluated through, not named). R02c: Taylor coefficients of (1+x)^-1/2 "
     "returned by expand_S_taylor for orders 0..9. amplitude_vector: configured left/right name on (virt, occ) indices.")
 ASSUMPTIONS = [
     "that the Taylor series of S^(-1/2) orthonormalises is mathematics, not checked",
@@ -271,7 +272,6 @@ def precursor(ctx):
 
 def r04b(ctx):
     rule = "R04b"
-    gl = ctx.model.fn(IS + "._generate_lower_spaces")
     vs = ctx.model.fn(IS + ".validate_space")
     variants = {"pp": ["ph", "hp"], "ea": ["p"], "ip": ["h"], "dip": ["hh"], "dea": ["pp"]}
     init = ctx.model.fn(IS + ".__init__")
@@ -290,12 +290,26 @@ def r04b(ctx):
     dx.all_raise(ctx, rule, init, "unknown ADC variant", outs, key="variants guard")
     spaces = ["p" * a + "h" * b for a in range(4) for b in range(4) if a + b] + ["hp", "hhp", "php"]
     for s in spaces:
-        scen = dx.Scenario()
-        sx = dx.make_sx(ctx, "_generate_lower_spaces", scen)
-        outs = sx.run(gl, lambda: dict(self=_isr(scen), space_str=s))
-        val = dx.val(outs[0]) if len(outs) == 1 and outs[0].kind == "return" else None
-        ctx.check(rule, gl, val == _lower(s), f"lower spaces of {s}: {_lower(s)}",
-                  f"_generate_lower_spaces('{s}') gives {val}, expected {_lower(s)}", key=f"lower {s}")
+        # the lower spaces of s, observed through the public validate_space: with min_space = [x] the answer is
+        # "x is s or one of the lower spaces of s" (the private helper that generates them is evaluated through)
+        probes = sorted({"p" * a + "h" * b for a in range(s.count("p") + 1) for b in range(s.count("h") + 1) if a + b}
+                        | {s, s[::-1], "hp", "ph"})
+        seen = set()
+        for x in probes:
+            scen = dx.Scenario()
+            me = _isr(scen)
+            me.attrs["min_space"] = [x]
+            sx = dx.make_sx(ctx, "validate_space", scen)
+            outs = sx.run(vs, lambda: dict(self=me, space_str=s))
+            val = dx.val(outs[0]) if len(outs) == 1 and outs[0].kind == "return" else None
+            if val is not None and not isinstance(val, T) and bool(val):
+                seen.add(x)
+            elif val is None or isinstance(val, T):
+                seen.add(f"?{x}")
+        want_set = {x for x in probes if x == s or x in _lower(s)}
+        ctx.check(rule, vs, seen == want_set, f"lower spaces of {s}: {_lower(s)}",
+                  f"validate_space('{s}') accepts exactly the minimal spaces {sorted(seen)}, expected {sorted(want_set)} "
+                  f"(the space itself and its lower spaces {_lower(s)})", key=f"lower {s}")
         for var, mins in variants.items():
             scen = dx.Scenario(variant=var)
             sx = dx.make_sx(ctx, "validate_space", scen)
